@@ -254,6 +254,7 @@ func newCtx(p *Prop, tier string, seed uint64, i int, dir string) *Ctx {
 // inconclusive result (panics of the code under test are recovered and judged
 // inside the monitors, never here).
 func runCaseProtected(c *Ctx) {
+	allowInvalidUTF8 = c.Prop.ID != "C09" && c.Prop.ID != "C15"
 	// the number of processors is part of the environment: results must not depend on it
 	if c.Prop.ID != "C14" {
 		procs := []int{1, 2, 3, 5, 6, 7, 4, 16, 11}[c.Case%9]
